@@ -885,3 +885,48 @@ def _(v):
         if n == "dtype":
             en = enumerators(ct)
     v.ground("dtype_enumerators_found", bool(en), str(en))
+
+
+# ---------------------------------------------------------------------------------------------- Variation.lrescale
+@P.task("variation.lrescale_addresses_own_configuration")
+def _(v):
+    """A Python Variation object is a COPY of one element of sim.var_config[]; its lrescale property must read and write the live C
+    element that describes the same variational set.  Sets have different sizes (a test-particle variation occupies one particle,
+    a full one N_real), so the element is identified by its `index` member, not by arithmetic on the index.
+    Structural contract on the AST of rebound/variation.py: getter and setter (and the helper methods of the class they call)
+    locate the element by a comparison `<config>.index == self.index` inside a loop over range(sim.N_var_config), and do not
+    compute a subscript of var_config from self.index arithmetically."""
+    path = os.path.join(cfront.REPO, "rebound", "variation.py")
+    mod = ast.parse(open(path).read())
+    cls = next((n for n in ast.walk(mod) if isinstance(n, ast.ClassDef) and n.name == "Variation"), None)
+    v.ground("class_found", cls is not None, "")
+    if cls is None:
+        return
+    methods = {f.name: [] for f in cls.body if isinstance(f, ast.FunctionDef)}
+    for f in cls.body:
+        if isinstance(f, ast.FunctionDef):
+            methods[f.name].append(f)
+    props = methods.get("lrescale", [])
+    v.ground("getter_and_setter_found", len(props) == 2, "definitions of lrescale: %d" % len(props))
+
+    def closure(fn, seen=None):
+        seen = seen or set()
+        out = [fn]
+        for n in ast.walk(fn):
+            if isinstance(n, ast.Call) and isinstance(n.func, ast.Attribute) and isinstance(n.func.value, ast.Name) \
+                    and n.func.value.id == "self" and n.func.attr in methods and n.func.attr not in seen:
+                seen.add(n.func.attr)
+                for g in methods[n.func.attr]:
+                    out += closure(g, seen)
+        return out
+    for fn in props:
+        kind = "setter" if any(isinstance(d, ast.Attribute) and d.attr == "setter" for d in fn.decorator_list) else "getter"
+        nodes = [n for g in closure(fn) for n in ast.walk(g)]
+        by_index = [n for n in nodes if isinstance(n, ast.Compare) and len(n.ops) == 1 and isinstance(n.ops[0], ast.Eq)
+                    and {ast.unparse(n.left).split(".")[-1], ast.unparse(n.comparators[0]).split(".")[-1]} == {"index"}
+                    and "self.index" in (ast.unparse(n.left), ast.unparse(n.comparators[0]))]
+        loops = [n for n in nodes if isinstance(n, ast.For) and "N_var_config" in ast.unparse(n.iter)]
+        arith = [ast.unparse(n) for n in nodes if isinstance(n, ast.BinOp) and "self.index" in ast.unparse(n)]
+        v.ground("lrescale.%s.element_found_by_matching_index" % kind, bool(by_index) and bool(loops),
+                 "comparisons with self.index: %d, loops over N_var_config: %d" % (len(by_index), len(loops)))
+        v.ground("lrescale.%s.no_index_arithmetic" % kind, not arith, "arithmetic on self.index: %s" % arith[:3])
